@@ -15,6 +15,8 @@ import OpusModel.Gen.Window
       that the TDAC theorem (`OpusProofs/MdctTdac.lean`, over ℝ) is stated about, and
       `extWindow`, `celtForwardDirect`: how the code's (N2+overlap)-sample block and short window embed
       into a 2M-sample block with the zero / rise / one / fall / zero "low-overlap" window.
+  The real-number twins of `foldAt`/`forward`/`backward` are `foldR`/`forwardR`/`backwardR` in
+  `OpusProofs/MdctAlgo*.lean`, where they are proved equal to the textbook MDCT / IMDCT.
   There are no theorems about Float; `Driver/DelayMain.lean` evaluates these definitions next to the
   C functions (tie, tolerance 1e-4) and next to each other (fold/FFT structure = direct definition).
 
@@ -197,5 +199,21 @@ def celtForwardDirect (N overlap : Nat) (w inp : Vec) : Vec :=
   let blk : Vec := (Array.range (2 * M)).map fun n =>
     if n < z ∨ n ≥ 2 * M - z then 0.0 else extWindow M overlap w n * at' inp (n - z)
   mdctDirect M blk
+
+/-- What clt_mdct_backward_c leaves in its buffer, written with the textbook IMDCT (the Float rendering of
+    `OpusProofs.MdctAlgoInv.backwardRaw_eq_imdct` plus the mirror loop): with `Y = imdctDirect M X`, `h = overlap/2`,
+    `Q = M/2`:  `out[t] = old[t]·w[ov-1-t] − Y[Q+h-1-t]·w[t]` for `t < h`,
+    `out[t] = old[ov-1-t]·w[ov-1-t] + Y[Q+t-h]·w[t]` for `h ≤ t < ov`, `out[t] = Y[Q+t-h]` for `ov ≤ t < M+h`,
+    and the last `h` entries untouched. -/
+def celtBackwardDirect (N overlap : Nat) (w coef out : Vec) : Vec :=
+  let M := N / 2
+  let Q := N / 4
+  let h := overlap / 2
+  let Y := imdctDirect M coef
+  (Array.range (M + overlap)).map fun t =>
+    if t < h then at' out t * at' w (overlap - 1 - t) - at' Y (Q + h - 1 - t) * at' w t
+    else if t < overlap then at' out (overlap - 1 - t) * at' w (overlap - 1 - t) + at' Y (Q + t - h) * at' w t
+    else if t < M + h then at' Y (Q + t - h)
+    else at' out t
 
 end Opus.Mdct
